@@ -1,6 +1,6 @@
 #!/bin/bash
 # usage: try_seed.sh <patch.diff> <prop>... ; applies the patch to /repo, runs the quick checks, reverts.
-patch=$1; shift
+patch=$(readlink -f $1); shift
 cd /repo || exit 2
 if ! git diff --quiet; then echo "repo dirty"; exit 2; fi
 git apply "$patch" 2>/dev/null || patch -p1 -F3 -s < "$patch" || { echo "PATCH DOES NOT APPLY"; git checkout -- .; exit 3; }
